@@ -8,6 +8,7 @@ import subprocess
 import sys
 
 V = os.path.dirname(os.path.dirname(os.path.abspath(__file__)))
+REPO = os.environ.get('VERIF_REPO', '/repo')
 
 
 def sh(cmd, cwd=None, env=None, timeout=3000):
@@ -28,7 +29,7 @@ def demo_cmd(d):
 def verify(d):
     d = os.path.abspath(d)
     wt = '/tmp/seedverify_%d' % os.getpid()
-    sh('git -C /repo worktree add -q --detach %s HEAD' % wt)
+    sh('git -C %s ' % REPO + 'worktree add -q --detach %s HEAD' % wt)
     res = {}
     try:
         # the matlab template is untracked in a fresh worktree; the tests create it themselves
@@ -43,20 +44,20 @@ def verify(d):
         res['demo_with_change'] = 'FAIL(rc=%d)' % rc if rc != 0 else 'PASS'
         res['demo_output_tail'] = out.strip()[-400:]
     finally:
-        sh('git -C /repo worktree remove --force %s' % wt)
+        sh('git -C %s ' % REPO + 'worktree remove --force %s' % wt)
     print(json.dumps(res, indent=1))
     return res
 
 
 def detect(d, ids, tier='quick'):
     d = os.path.abspath(d)
-    rc, out = sh('git -C /repo status --porcelain')
+    rc, out = sh('git -C %s ' % REPO + 'status --porcelain')
     if out.strip():
         print('REFUSING: /repo is not clean:\n' + out)
         return None
     verdicts = {}
     try:
-        rc, out = sh('git -C /repo apply %s/patch.diff' % d)
+        rc, out = sh('git -C %s ' % REPO + 'apply %s/patch.diff' % d)
         if rc != 0:
             print('patch does not apply: ' + out)
             return None
@@ -73,8 +74,8 @@ def detect(d, ids, tier='quick'):
                 except Exception:
                     pass
     finally:
-        sh('git -C /repo checkout -- .')
-        sh('git -C /repo clean -fdq -- gtwrap scripts')
+        sh('git -C %s ' % REPO + 'checkout -- .')
+        sh('git -C %s ' % REPO + 'clean -fdq -- gtwrap scripts')
     print(json.dumps(verdicts, indent=1))
     return verdicts
 
